@@ -17,6 +17,10 @@ def Registry.delete (r : Registry) (t : String) : Registry :=
 /-- `none` = "credential status type … is not registered" -/
 def Registry.get (r : Registry) (t : String) : Option Nat := r.lookup t
 
+/-- how each method uses its type parameter: as the key of the map, as it was given (compared on every run with what the
+    source's methods do, `SourceFacts.registry_key_use_is_models`) -/
+def keyUse : List (String × String) := [("Delete", "param"), ("Get", "param"), ("Register", "param")]
+
 /-- one process: the verifier's own registry (given with WithStatusResolverRegistry /
     WithValidationStatusResolverRegistry) and the package-level default one -/
 structure St where
